@@ -590,6 +590,56 @@ def o10(tier):
     return r
 
 
+@guard
+def o11(tier):
+    """add_members adds exactly the members named: every key-package event handed in is parsed, a failure aborts the operation, and what goes to OpenMLS is the list of parse results"""
+    from mirsym.values import SeqV
+    from mirsym.engine import State
+    ob = Ob('O11', 'MDK::add_members (event lists of length 0..2): on every path that reaches MlsGroup::add_members each key-package event of the input was parsed successfully (a failed parse '
+                   'returns Err, it is never skipped) and the key packages handed to OpenMLS are exactly the parse results, in order',
+            pure=C.PURE_MLS, loop_bound=4)
+    f = ob.fn(VALID, 'groups::add_members')
+    total = hits = 0
+    for n_ev in (0, 1, 2):
+        evs = SeqV([Opaque(f'ev{i}', 'nostr::Event') for i in range(n_ev)], 'slice')
+        st = State()
+        args = [Opaque('self', '&MDK<Storage>'), Opaque('group_id', '&mdk_storage_traits::GroupId'), Ref(st.temp(evs), ())]
+        paths = ob.explore(f, args, st)
+        total += len(paths)
+        for p in paths:
+            if p.kind == 'panic':
+                ob.require(False, 'O11/panic', p.msg, p); continue
+            muts = [e for e in p.trace if ev_is(e, 'add_members') and ('MlsGroup' in e.fn or 'openmls' in e.fn)]
+            if not muts:
+                continue
+            hits += 1
+            pk = [e for e in p.trace if ev_is(e, 'parse_key_package')]
+            ob.require(len(pk) == n_ev and [uid_of(ob.eng, p.st, e.args[1]).lstrip('*') for e in pk] == [f'ev{i}' for i in range(n_ev)], 'O11/not-every-event-parsed',
+                       f'{n_ev} key-package events were handed in, parse_key_package ran on {[uid_of(ob.eng, p.st, e.args[1]) for e in pk]}', p)
+            bad = [e for e in pk if not ob.eng.prove(p, e.ret.discriminant() == 0)[0]]
+            ob.require(not bad, 'O11/failed-parse-skipped', 'MlsGroup::add_members is reached although a key-package event failed to parse: the member it names is silently left out '
+                       '(the call reports success and still sends welcomes for every event)', p)
+            kp = muts[0].args[3] if len(muts[0].args) > 3 else None
+            items = None
+            try:
+                v = ob.eng.deref_all(p.st, kp) if hasattr(ob.eng, 'deref_all') else None
+            except Exception:
+                v = None
+            from mirsym.models import deref_all
+            try:
+                v = deref_all(ob.eng, p.st, kp)
+            except Exception:
+                v = None
+            if isinstance(v, SeqV):
+                items = [uid_of(ob.eng, p.st, x) for x in v.items]
+            want = [uid_of(ob.eng, p.st, e.ret) + '.Ok.0' for e in pk]
+            ob.require(items is not None and items == want, 'O11/key-packages-not-the-parse-results', f'OpenMLS receives {items}, the parse results are {want}', p)
+    ob.require(hits >= 3, 'O11/vacuity', f'paths reaching MlsGroup::add_members: {hits}')
+    ob.r.bounds = {'key-package events': '0..2 (concrete length, opaque events)', 'paths': 'all'}
+    ob.r.vacuity.append(f'{total} paths, {hits} reach MlsGroup::add_members')
+    return ob.done(cases=total)
+
+
 def run(tier, seed, only=None):
-    obs = [('O1', o1), ('O2', o2), ('O3', o3), ('O4', o4), ('O5', o5), ('O6', o6), ('O7', o7), ('O8', o8), ('O9', o9), ('O10', o10)]
+    obs = [('O1', o1), ('O2', o2), ('O3', o3), ('O4', o4), ('O5', o5), ('O6', o6), ('O7', o7), ('O8', o8), ('O9', o9), ('O10', o10), ('O11', o11)]
     return [f(tier) for k, f in obs if not only or k in only]
